@@ -273,6 +273,51 @@ def long_numbers(ctx, kind="req"):
     return True, "long:" + ("reject" if res.rejected is not None else "accept"), None
 
 
+def unterminated_block(ctx, kind="req", k=5):
+    """a header block of k complete field lines that is never closed by the empty line,
+    cut at one solver-chosen offset; max_headers symbolic: once more than max_headers lines
+    have been received the peer is refused - the count does not wait for the end of the
+    block - and the lines kept between calls stay within max_headers"""
+    from aiohttp import http_parser as hp
+    from aiohttp.http_exceptions import HttpProcessingError
+
+    response = kind == "resp"
+    start = b"HTTP/1.1 200 OK" if response else b"GET / HTTP/1.1"
+    lines = [start] + ([] if response else [b"Host: a"]) + [b"X%d: y" % i for i in range(k)]
+    data = b"\r\n".join(lines) + b"\r\n"
+    mh = ctx.int("max_headers", 1, len(lines) + 2)
+    lim = dict(max_line_size=8190, max_field_size=8190, max_headers=mh)
+    cuts = H.cut_points(ctx, "cut", len(data), 1)
+    cls = hp.HttpResponseParser if response else hp.HttpRequestParser
+    proto = HC.StubProtocol()
+    kw = dict(lim)
+    if response:
+        kw.update(read_until_eof=True)
+    p = cls(proto, None, 2 ** 16, **kw)
+    proto._parser = p
+    rejected = False
+    parts = []
+    for piece in H.pieces(data, cuts):
+        try:
+            p.feed_data(piece)
+        except HttpProcessingError:
+            rejected = True
+            break
+        except Exception as e:  # noqa: BLE001
+            return False, "escape", {"key": f"escape:{type(e).__name__}"}
+        parts.append(len(p._lines) <= mh)
+    over = bool(len(lines) > mh)
+    if over:
+        parts.append(rejected)
+    f = H.fall(parts)
+    info = None
+    if f is not True:
+        info = {"key": "unterminated-header-block-not-refused", "cuts": cuts, "kind": kind, "lines": len(lines)}
+        if not ctx.symbolic:
+            info.update(max_headers=int(mh), rejected=rejected)
+    return f, ("over:" if over else "within:") + ("reject" if rejected else "buffered"), info
+
+
 def header_count(ctx, kind="req", k=4):
     """k field lines; max_headers symbolic: more lines than max_headers are rejected"""
     response = kind == "resp"
@@ -332,6 +377,7 @@ def jobs(tier):
                                 params=dict(kind="resp", where=where, L=32, ncuts=1), limits=lim))
         out.append(dict(name=f"{kind}-long-numbers", func="long_numbers", params=dict(kind=kind), limits=lim))
         out.append(dict(name=f"{kind}-header-count", func="header_count", params=dict(kind=kind, k=3), limits=lim))
+        out.append(dict(name=f"{kind}-unterminated-block", func="unterminated_block", params=dict(kind=kind, k=4 if quick else 8), limits=lim))
         for where in ("request-line", "field", "chunk-size", "chunk-ext", "trailer"):
             out.append(dict(name=f"{kind}-unterminated-{where}", func="unterminated",
                             params=dict(kind=kind, where=where, L=40 if quick else 64), limits=lim))
@@ -362,7 +408,7 @@ REQUIRED_OUTCOMES = ("over:reject", "within:accept", "reject", "accept:1")
 
 
 def bounds(tier):
-    return {"unterminated": "a line of 40 (quick) / 64 bytes without terminator in each syntactic position, delivered in 3 pieces at every pair of cut positions, limits symbolic in [28, 28+L/2]",
+    return {"unterminated_block": "start line + 4 (quick) / 8 field lines never closed by the empty line, one cut at every offset, max_headers symbolic in 1..lines+2", "unterminated": "a line of 40 (quick) / 64 bytes without terminator in each syntactic position, delivered in 3 pieces at every pair of cut positions, limits symbolic in [28, 28+L/2]",
             "symbolic_streams": "2..4 bytes (quick) / 2..6 (thorough), all 256 values, one symbolic cut; chunked bodies 3 (quick) / 3..5",
             "templates": "C01 request templates and C03 response templates, 1-byte window at every offset, cut within 3 bytes of the window",
             "near_limit": "line length L in {32} (quick) / {24..48}; max_line_size, max_field_size in [L-2,L+2], max_headers 1..8, every single cut; response parser additionally: a field / trailer folded over three lines (obs-fold) of L/2 or (L-2)/3 bytes each",
